@@ -50,6 +50,8 @@ def jobs(tier, seed):
         rates = [r for r in C01.pick_rates(m, wanted) if r < 1]
         modes = ((False, False), (True, False), (False, True)) if profile == "full" else ((False, False),)
         for kind in AC.CLASSES:
+            if tier == "quick" and kind.endswith("_fa") and n >= m:
+                continue   # quick tier: the force-anywhere variants only where the read is shorter than the adapter
             for rate in rates:
                 for aw, rw in modes:
                     for indels in (True, False):
